@@ -1,9 +1,13 @@
-/- C17 — the complete line protocol: part M (two-level linear model), part P (permutation-test
-   counting), part S (flags, axis), then the base protocol. -/
-import NipyVerif.Model.C17M
+/- C17 — the complete line protocol: the terms regenerated from the source text (part Src), part M
+   (two-level linear model), part P (permutation-test counting), part S (flags, axis), then the base
+   protocol. -/
+import NipyVerif.Model.C17Src
 namespace NipyVerif.C17
 
 def runAll (t : Toks) : String :=
+  match runSrc t with
+  | some s => s
+  | none =>
   match runM t with
   | some s => s
   | none =>
